@@ -244,7 +244,9 @@ Fixpoint col_fold (value_of : cell -> bytes) (c : nat) (rs : list row) (k : nat)
     col_fold value_of c rest (S k) acc'
   end.
 (* the number of columns is the highest column of a cell with content (a <v>, <f> or <is> child), after fix 874bc46 *)
-Definition has_content (c : cell) : bool := negb (is_nil (c_v c)) || (match c_f c with Some _ => true | None => false end).
+(* a shared string cell always has a <v> (the index), an inline string cell an <is>, also when the text is empty *)
+Definition has_content (c : cell) : bool :=
+  negb (is_nil (c_v c)) || (match c_f c with Some _ => true | None => false end) || (c_t c =? 2) || (c_t c =? 4).
 Fixpoint last_content (cs : list cell) (i : nat) : nat :=
   match cs with [] => 0%nat | c :: rest => Nat.max (if has_content c then S i else 0%nat) (last_content rest (S i)) end.
 Definition total_cols (sh : sheet) : nat := fold_left (fun m r => Nat.max m (last_content (r_cells r) 0)) (rows sh) 0%nat.
